@@ -166,9 +166,6 @@ def main():
     tmp = tempfile.mkdtemp(prefix='c21-', dir=os.environ.get('VERIF_TMP', '/tmp'))
     out = {'results': [], 'stuck': None}
     try:
-        import inspect
-        from pony.orm import core
-        out['variant'] = 'fixed' if 'is_fully_loaded' in inspect.getsource(core.Set.db_reverse_remove) else 'unfixed'
         path = os.path.join(tmp, 'c21.sqlite')
         db, E = setup(path)
         raw = sqlite3.connect(path, timeout=5)
